@@ -25,6 +25,7 @@ import inspect
 import io
 import itertools
 import json
+import os
 import random
 import re
 import shutil
@@ -277,57 +278,35 @@ class Real:
         self.img = self.cls(pil, width=2)
         self._gif = Image.open(gif)
         self.anim = self.cls(self._gif, width=2)
-        # class-level data attributes that an operation could disturb
-        self._cls_attrs = []
-        for c in (*self.cls.__mro__, UrwidImage):
-            if not c.__module__.startswith("term_image"):
-                continue
-            for k, v in vars(c).items():
-                if k.startswith("__") or callable(v):
-                    continue
-                if isinstance(v, (property, classmethod, staticmethod)):
-                    continue
-                self._cls_attrs.append((c, k))
+        # the classes whose attributes an operation could disturb
+        self._classes = [
+            c for c in (*self.cls.__mro__, UrwidImage) if c.__module__.startswith("term_image")
+        ]
         self._snaps = {}
 
     # -- snapshots -----------------------------------------------------------------
     @staticmethod
-    def _freeze(v):
-        return v.copy() if isinstance(v, (dict, list, set)) else v
+    def _freeze(d):
+        # containers are copied (one level) so that mutation in place is seen as well as
+        # rebinding; everything else is compared by identity-or-equality
+        return {k: (v.copy() if isinstance(v, (dict, list, set)) else v) for k, v in d.items()}
 
     def _take(self, image):
-        inst = [(k, v, self._freeze(v)) for k, v in vars(image).items()]
-        cls = [(c, k, vars(c)[k], self._freeze(vars(c)[k])) for c, k in self._cls_attrs]
-        return inst, cls
-
-    @staticmethod
-    def _eq(cur, ref, frozen):
-        if cur is not ref:
-            if type(cur) not in (int, str, float, bool, tuple, type(None)) or cur != ref:
-                return False
-        if frozen is not ref and cur != frozen:  # container mutated in place
-            return False
-        return True
+        return self._freeze(vars(image)), [(vars(c), self._freeze(vars(c))) for c in self._classes]
 
     def unchanged(self, image) -> bool:
-        """True iff nothing visible of image / its classes differs from the last snapshot."""
+        """True iff no attribute of the image or of its classes (and UrwidImage) differs from
+        the last snapshot; a changed state becomes the new reference."""
         key = id(image)
         snap = self._snaps.get(key)
         if snap is None:
             self._snaps[key] = self._take(image)
             return True
-        inst, cls = snap
-        d = vars(image)
-        ok = len(d) == len(inst)
+        inst, classes = snap
+        ok = vars(image) == inst
         if ok:
-            for k, ref, frozen in inst:
-                if k not in d or not self._eq(d[k], ref, frozen):
-                    ok = False
-                    break
-        if ok:
-            for c, k, ref, frozen in cls:
-                cur = vars(c).get(k, self)
-                if cur is self or not self._eq(cur, ref, frozen):
+            for cur, ref in classes:
+                if cur != ref:
                     ok = False
                     break
         if not ok:
@@ -490,9 +469,10 @@ def run_models(rep: Report):
         ("all", "MC_FormatSpec_all.cfg", False),
         ("pruned", "MC_FormatSpec.cfg" if quick else "MC_FormatSpec_thorough.cfg", False),
         ("hex", "MC_FormatSpec_hex.cfg", False),
+        *([] if quick else [("all-core4", "MC_FormatSpec_all4.cfg", False)]),
         ("coverage", "MC_FormatSpec_cov.cfg", True),
     ]
-    ex = ThreadPoolExecutor(max_workers=4)
+    ex = ThreadPoolExecutor(max_workers=5)
     futs = [
         (name, cfg, ex.submit(tlc.run, "MC_FormatSpec", cfg, workers=2, timeout=840,
                               coverage=cov, deadlock=False, jvm=JVM))
@@ -524,6 +504,73 @@ def run_models(rep: Report):
         ex.shutdown()
 
     return join
+
+
+CANARY = [
+    # (style index, specifier, entry, field position or action, expected verdict)
+    (2, "<5.^3#.5+Lz7m1c9", 1, 2, "denotes:h_align"),
+    (2, "<5.^3#.5+Lz7m1c9", 1, 3, "denotes:width"),
+    (2, "<5.^3#.5+Lz7m1c9", 1, 5, "denotes:v_align"),
+    (2, "<5.^3#.5+Lz7m1c9", 1, 6, "denotes:height"),
+    (2, "<5.^3#.5+Lz7m1c9", 3, 9, "denotes:alpha"),
+    (2, "<5.^3#.5+Lz7m1c9", 1, 10, "denotes:method"),
+    (2, "<5.^3#.5+Lz7m1c9", 1, 11, "denotes:z_index"),
+    (2, "<5.^3#.5+Lz7m1c9", 4, 12, "denotes:mix"),
+    (2, "<5.^3#.5+Lz7m1c9", 3, 13, "denotes:compress"),
+    (1, "|.-#", 4, 8, "denotes:alpha-kind"),
+    (3, ">7+Am1", 2, "reject", "rejects-sentence"),
+    (3, ">7+Am1", 2, "digest", "format-differs-from-draw"),
+    (1, ">7+L", 1, "accept", "accepts-non-sentence"),
+    (2, "5.", 3, "accept", "accepts-bare-dot:other"),
+    (2, "+z2147483648", 1, "class", "wrong-error"),
+    (3, "#12345", 4, "effect", "side-effect-on-reject"),
+]
+
+
+def canary(reals) -> None:
+    """Corrupted traces must be rejected with the right clause, else the binding is deaf."""
+    traces, expect = [], []
+    for si, s, ei, what, verdict in CANARY:
+        per = []
+        for st in STYLES:
+            stubs.set_identity(IDENT[st])
+            stubs.set_term(size=TERM_A, cell=(8, 16) if st != "block" else None)
+            reals[st].prime()
+            per.append(observe(reals[st], s, True))
+        base = {"s": list(s), "t": [*TERM_A, *TERM_B]}
+        base["u"], base["x"] = intern(per)
+        traces.append(base)
+        expect.append("ok")
+        bad = json.loads(json.dumps(per))
+        o = bad[si - 1][ei - 1]
+        if isinstance(what, int):
+            o[what] = o[what] + "9" if o[what] not in ("none", "", "default") else "x"
+        elif what == "reject":
+            bad[si - 1][ei - 1] = ["ValueError", True]
+        elif what == "digest":
+            o[2] = "0" * 16
+        elif what == "accept":
+            bad[si - 1][ei - 1] = ["ok", True, "none", "80", "57", "none", "28", "17", "default", "",
+                                   "", "", "", "", ""]
+            if ei == 3:
+                bad[si - 1][ei - 1][4] = bad[si - 1][ei - 1][7] = "~"
+        elif what == "class":
+            o[0] = "StyleError"
+        elif what == "effect":
+            o[1] = False
+        t = {"s": list(s), "t": [*TERM_A, *TERM_B]}
+        t["u"], t["x"] = intern(bad)
+        traces.append(t)
+        expect.append(verdict)
+    verdicts, _, _ = validate(traces, len(traces), 1)
+    for i in range(0, len(traces), 2):
+        if verdicts[i]["verdict"] != "ok":
+            continue  # the real code already deviates here: the main check reports it
+        got = verdicts[i + 1]["verdict"]
+        if got != expect[i + 1]:
+            raise tlc.MachineryError(
+                f"corrupted trace not rejected as expected: {CANARY[i // 2]} gave {got!r}"
+            )
 
 
 JVM = ["-Xmx3g", "-XX:ParallelGCThreads=2", "-XX:CICompilerCount=2"]
@@ -574,14 +621,17 @@ def main(rep: Report, replay: dict | None) -> None:
     join_models = run_models(rep) if not replay else (lambda: None)
 
     stubs.install()
-    tmp = imgs.tmpdir("c19")
-    gif = imgs.make_animation(random.Random(1), tmp / "anim.gif", 2, 2, 4)
-    reals = {st: Real(st, str(gif)) for st in STYLES}
+    tmp = imgs.tmpdir(f"c19-{os.getpid()}")  # per process: checks may run concurrently
+    try:
+        gif = imgs.make_animation(random.Random(1), tmp / "anim.gif", 2, 2, 4)
+        reals = {st: Real(st, str(gif)) for st in STYLES}  # the GIF stays open in the images
+    finally:
+        shutil.rmtree(tmp, ignore_errors=True)
 
     if replay:
         chunks = iter([("replay", [replay["scenario"]["s"]])])
     else:
-        chunks = input_chunks(rep, 30000 if quick else 120000)
+        chunks = input_chunks(rep, 40000 if quick else 120000)
 
     draw_budget = 8000 if quick else 150000
     drng = random.Random(rep.seed * 31 + 7)
@@ -644,8 +694,8 @@ def main(rep: Report, replay: dict | None) -> None:
                 u, x = intern(per_string[i])
                 traces.append({"s": list(s), "t": [*TERM_A, *TERM_B], "u": u, "x": x})
             del per_string
-            batch = max(500, min(8000 if quick else 20000, len(traces) // 8 + 1))
-            pending.append((kind, strings, traces, pool.submit(validate, traces, batch, 8)))
+            batch = 10000 if quick else 20000
+            pending.append((kind, strings, traces, pool.submit(validate, traces, batch, 6)))
             while len(pending) > 1:
                 k, ss, trs, fut = pending.pop(0)
                 digest_verdicts(k, ss, trs, *fut.result())
@@ -666,4 +716,7 @@ def main(rep: Report, replay: dict | None) -> None:
                 raise tlc.MachineryError(f"vacuous: no sentence of the grammar was exercised for {st}")
         if stats["draw_compared"] == 0:
             raise tlc.MachineryError("vacuous: format() was never compared with draw()")
+    if not replay:
+        canary(reals)
+        rep.extra["corrupted_traces_rejected"] = len(CANARY)
     join_models()
